@@ -803,6 +803,14 @@ def hierarchy_scenario(rng) -> List[Unit]:
     units: List[Unit] = []
     cn = 0
     attr = "title"
+    # seeded C06-r6-2: nested classes `Inner` reached THROUGH a class (`class X(K.Inner)`) whose linearisation may be
+    # incomplete when the module is analysed in the middle of another one
+    has_inner: Dict[str, bool] = {}
+    # (its own random stream, derived from what has been drawn so far: the main stream - and with it every project the
+    # earlier rounds were measured on - stays what it was)
+    import random as _random
+    rng2 = _random.Random("inner:%s:%s" % (",".join(names), inpkg))
+    with_inner = rng2.random() < 0.5
     for i, m in enumerate(names):
         lines: List[str] = [Q + "module %s" % m + Q]
         imported: Dict[int, str] = {}                # module index -> expression prefix usable for its classes
@@ -856,8 +864,14 @@ def hierarchy_scenario(rng) -> List[Unit]:
                 body.append("    %s = []" % sh)
             if rng.random() < 0.5:
                 body += ["    def describe(self):", ("        " + Q + "describe %s" % cname + Q) if rng.random() < 0.5 else "        pass"]
+            own_inner = with_inner and rng2.random() < 0.5
+            if own_inner:
+                body += ["    class Inner:", "        " + Q + "Inner of %s" % cname + Q]
             if body[-1].startswith("class "):
                 body.append("    pass")
+            has_inner[cname] = own_inner or any(has_inner.get(bn, False) for (_mi, bn, _iv) in chosen)
+            if has_inner[cname] and rng2.random() < 0.6:
+                body += ["class X%d(%s.Inner):" % (cn, cname), "    " + Q + "through %s" % cname + Q]
             classes.append((i, cname, iv))
         units.append(Unit(q(m), False, "\n".join(lines + body) + "\n", "hp" if inpkg else None))
     if rng.random() < 0.5 and len(units) > 1:
@@ -1280,6 +1294,10 @@ def hunt_corpus() -> List[List[Unit]]:
            ("acme.storage", "from acme.compat import IResource\nclass IStore(IResource):\n    def put(key, value):\n        'store'\n"),
            ("acme.api", "from acme.storage import IStore\n__all__ = ['IStore']\n"), ("acme_ext", ""),
            ("acme_ext.cache", "from acme.storage import IStore\nclass ICache(IStore):\n    def evict(key):\n        'forget'\n")),
+        # (seeded C06-r6-2) a base looked up THROUGH a class (`class C(B.Inner)`) inside an import cycle: B's first base
+        # comes from the cyclic partner and is unresolved when p is analysed in the middle of q
+        mk(("p", "from q import Mixin\nclass A:\n    'a'\n    class Inner:\n        'inner of A'\nclass B(Mixin, A):\n    'b'\nclass C(B.Inner):\n    'c'\n"),
+           ("q", "import p\nclass Mixin:\n    'mixin'\n    class Inner:\n        'inner of Mixin'\n")),
         mk(("pk/", "import aimpl\nThing = aimpl.Thing\n"),
            ("aimpl", "from typing import TYPE_CHECKING\nif TYPE_CHECKING:\n    import app\nclass Root:\n    pass\nclass Thing(Root):\n    pass\n"),
            ("app", "from pk import Thing\nclass Special(Thing):\n    pass\n")),
@@ -1413,7 +1431,13 @@ def run(ctx: Ctx) -> None:
                 impls.append("ok " + " ".join(rec.log) + " | " + states + " | " + (",".join(str(rec.ids[id(m)]) for m in s.unprocessed_modules) or "-"))
                 pay.append({"units": src, "order": od})
             # direct oracle (acyclic projects): every import obtained its target in the state that module ends in
-            if not pycyc:
+            if not pycyc and (rec.module_moved or rec0.module_moved):
+                # a re-exported MODULE / package: pydoctor analyses the modules below it before the move (2ad6fa5), modules
+                # Python's import graph does not reach from the re-exporter at all; which state THEIR imports see is not
+                # something the (Python) import graph decides, so the state check does not apply (the comparison of the
+                # documented output across orders below still does)
+                ctx.count("oracle-skipped:final-state-imports:module-moved")
+            elif not pycyc:
                 for ev in rec.log:
                     if ev.startswith("sees"):
                         src_, tgt = map(int, ev[4:-1].split(">"))
